@@ -42,12 +42,27 @@ def run(chk, replay=None):
     for n in ((70, 350) if quick else (70, 200, 350, 1200)):
         body = " ".join("assert!(jet::eq_32(%d, %d)); let v%d: u32 = dbg!(%d);" % (k, k, k, k) for k in range(n))
         progs.append(Prog("fn main() { %s }" % body, [], "large/%d" % n))
+    for a, b in (("u32", "u16"), ("(u8, u8)", "u16"), ("Either<u8, bool>", "Option<u8>")):
+        progs.append(Prog("type Word = %s;\nfn id(x: Word) -> Word { x }\nfn main() { let w: Word = witness::W; let v: Word = id(w); }" % a, [], "alias/%s" % a))
+        progs.append(Prog("type Word = %s;\nfn id(x: Word) -> Word { x }\nfn main() { let w: Word = witness::W; let v: Word = id(w); }" % b, [], "alias/%s" % b))
+    progs.append(Prog("fn id(x: Word) -> Word { x }\nfn main() { let w: Word = witness::W; }", [], "alias/undefined"))
     progs += [Prog("fn main() { let x: u8 = y; }", [], "bad/undefined"), Prog("fn main() {", [], "bad/grammar"), Prog("", [], "bad/empty")]
     nproc = 8 if quick else 24
     for dbg in (0, 1):
         lines = ["(commit %s () %d)" % (quote(g.text), dbg) for g in progs]
         # N separately started processes (fresh hash seeds each): one process per repetition, all programs in each
         runs = [impl("core", lines, shards=1) for _ in range(nproc)]
+        # the same programs compiled in other orders inside one process (reversed, shuffled): nothing may carry over from an
+        # earlier compilation to a later one
+        idx = list(range(len(lines)))
+        for order in ("reversed", "shuffled"):
+            perm = idx[::-1] if order == "reversed" else chk.sub_rng("order/%d" % dbg).sample(idx, len(idx))
+            res = impl("core", [lines[j] for j in perm], shards=1)
+            back = [None] * len(lines)
+            for j, r in zip(perm, res):
+                back[j] = r
+            runs.append(back)
+        # programs that give one alias / function name different meanings, compiled back to back in both orders
         # repeated compilation inside one process
         rep = impl("core", [l for l in lines for _ in range(5)], shards=1)
         for i, (g, ln) in enumerate(zip(progs, lines)):
